@@ -82,6 +82,8 @@ def cases(tier):
             yield Case("sh:N=%d:%s" % (N, tag), {"kind": "sh", "N": N, "t": t})
     for N in _ladder(tier):
         yield Case("ladder:N=%d" % N, {"kind": "ladder", "N": N})
+    for N in (4, 8):
+        yield Case("intseed:N=%d" % N, {"kind": "intseed", "N": N})
     # the zero-frequency clause alone is cheap, so it is decided for EVERY even N up to a much larger bound
     top = 512 if tier == "quick" else 1536
     # the sub-harmonic part for grid sizes far beyond those whose full operator is extracted
@@ -154,6 +156,8 @@ def evaluate(p):
         return _dc_case(o, ps, p["lo"], p["hi"])
     if p["kind"] == "shbig":
         return _shbig_case(o, ps, p["N"])
+    if p["kind"] == "intseed":
+        return _intseed_case(o, ps, p["N"])
     N, t = p["N"], p["t"]
     delta, r0, L0, l0 = t
     n2 = N * N
@@ -389,5 +393,43 @@ def _shbig_case(o, ps, N):
                         o.check("subharmonic_plane_wave_on_every_row", False, sub="p=%d:coef=%d%d:%s" % (p_, i, j, part),
                                 measure=err, tol=1e-9, detail={"rows_off": [int(r) for r in rows[:6]], "n_rows_off": int(len(rows))})
     o.check("subharmonic_plane_wave_on_every_row", worst <= 1e-9, measure=worst, tol=1e-9, n=48) if worst <= 1e-9 else None
+    o.stat("nontrivial", 1)
+    return o
+
+
+def _intseed_case(o, ps, N):
+    """The ensemble over INTEGER seeds.  With an integer seed every numpy.random.default_rng(seed) call the
+    library makes restarts the same stream z of independent unit normals; that is modelled exactly by making
+    default_rng return, for a non-Generator argument, a generator that replays z from its beginning.  The screen
+    is then a linear function of z, its complete operator is extracted from the unit vectors of z, and the
+    exact covariance of the integer-seeded ensemble must equal that of the ensemble over injected Generator
+    draws (which the other cases compare with the discretised von Karman sum): a seed only names a realisation,
+    it must not change the statistics.  Plain and sub-harmonic screens."""
+    from mc.env import SeqGenerator
+    delta, r0, L0, l0 = 0.1, 0.2, 5.0, 0.01
+    n2 = N * N
+
+    def with_int_seed(fn, z):
+        real = numpy.random.default_rng
+
+        def fake(seed=None):
+            if isinstance(seed, numpy.random.Generator):
+                return seed
+            return SeqGenerator(z)
+        numpy.random.default_rng = fake
+        try:
+            return numpy.asarray(fn(r0, N, delta, L0, l0, seed=4242)).ravel()
+        finally:
+            numpy.random.default_rng = real
+
+    for name, fn, nz in (("plain", ps.ft_phase_screen, 2 * n2), ("subharmonic", ps.ft_sh_phase_screen, 2 * n2 + 54)):
+        eye = numpy.eye(nz)
+        T_int = numpy.array([with_int_seed(fn, eye[k]) for k in range(nz)]).T
+        T_gen = numpy.array([numpy.asarray(fn(r0, N, delta, L0, l0, seed=SeqGenerator(eye[k]))).ravel() for k in range(nz)]).T
+        o.stat("lib_calls", 2 * nz)
+        C_int, C_gen = T_int @ T_int.T, T_gen @ T_gen.T
+        scale = float(numpy.max(numpy.abs(C_gen)))
+        o.close("integer_seeded_ensemble_has_the_same_covariance", _maxabs(C_int - C_gen) / scale, 1e-10, sub=name,
+                detail="exact covariance over all draws of an integer-seeded stream vs over injected Generator draws")
     o.stat("nontrivial", 1)
     return o
